@@ -9,6 +9,9 @@ E2 = "explicit-state model checking of the implementation: exhaustive breadth-fi
 E1 = "stateless model checking of the implementation: exhaustive depth-first exploration of goroutine schedules (iterative preemption bounding, happens-before fingerprint pruning) under a controlled scheduler, with the Go race detector evaluated on every explored schedule"
 E3 = "bounded-exhaustive enumeration of a structured input grammar against the real code with an independent decoder/reference as oracle"
 CHECKS = {
+ 'C01': dict(engine='vsched-e2', technique=E2,
+   text="For every ordered chain without repetition of length 0-2 (thorough: 3) of the 14 non-buffering interceptor factories, every option variant for single members and the 14 rotations of the full chain, built directly and through Registry.Build, all operation sequences up to depth 4 (single members) / 3 (longer chains) over 19 symbols (six header shapes written, four read, incoming SR/NACK/TWCC/CCFB, application RTCP, tick, arm the next transport write/read to fail) are executed between a mock transport and the application: the application packet must reach the transport exactly once during its own Write, first, with identical header and payload (transport-cc value aside); reads return the transport's bytes and a matching cached parse; injected transport errors are returned (errors.Is); the feedback of a history with a failed read equals that of its twin without the read. A separate enumeration of chains of counting members (all shapes up to length 4, every subset failing Close) checks that Unbind/Close reach every member exactly once, that Close errors are preserved and that Registry.Build keeps factory order.",
+   note=TRUST + "application packets on the negotiated stream carry the transport-cc extension themselves; an error produced by an interceptor itself (not by the transport) is not judged beyond non-duplication.", ref="DESIGN.md 3/C01"),
  'C03': dict(engine='vsched-e2', technique=E2,
    text="All arrival/tick histories up to the stated depth over a 17-symbol alphabet built from the receive log's branch conditions, for every (window, skipLastN, maxNacks, start) configuration listed in the evidence, are executed on the real NACK generator interceptor and compared at every tick with a reference on unwrapped sequence numbers. Exhaustive within the bounds; longer histories and other window sizes are not covered.",
    note=TRUST + "pion/rtcp NackPair fields are read directly, the PID/BLP expansion is the harness's own.", ref="DESIGN.md 3/C03"),
@@ -18,15 +21,30 @@ CHECKS = {
  'C08': dict(engine='vsched-e2', technique=E2,
    text="All add/build histories up to depth 5-8 over per-family alphabets (sequence offsets from the highest incl. +0x7FFF jumps, duplicates, reordering below the first packet; arrival/report clock steps around the floor, saturation and 64 s wrap edges; 12 small maximum sizes and 1200/70000) for one to three SSRCs are executed on rfc8888.Recorder and, at smaller depth, through the SenderInterceptor under the virtual clock; every report is decoded from its Marshal() bytes by an independent RFC 8888 decoder and compared with a reference on unwrapped numbers (contiguity, end at highest, received flags, ATO, once-received-never-lost, new arrivals present unless pushed out, size limit).",
    note=TRUST + "the begin of a range is left free (DESIGN.md section 5); ECN bits are not judged.", ref="DESIGN.md 3/C08"),
+ 'C09': dict(engine='vsched-e2', technique=E2 + "; feedback inputs by " + E3,
+   text="Send histories (nothing sent, 24 packets, never-sent numbers, TWCC and non-TWCC SSRCs interleaved, 250/251/262/270 packets in flight, starts 1000 and 65530) x feedback (hand-built TWCC chunk lists of every chunk type and symbol size incl. padded final chunks and run lengths beyond the status count, RFC 8888 blocks, closed loop through the library's own twcc.Recorder / rfc8888.Recorder, read sequences of depth 3-4 incl. compound, duplicated and overlapping feedback) are executed on internal/cc.FeedbackAdapter and on rtpfb.Interceptor through its public API; expected status/arrival/ECN per sequence number come from an independent decoder of the marshalled feedback bytes.",
+   note=TRUST + "completeness is demanded only for the 250 most recent packets (documented history size); two behaviours pinned by the repository's own tests are known findings.", ref="DESIGN.md 3/C09"),
  'C10': dict(engine='vsched-e1', technique=E1,
    text="For every interceptor of the library (17 kinds, 36 scenarios) a closed harness of 2-3 application threads forced onto the same stream/SSRC (writers, readers, independent RTCP read loops, Unbind/Close, getters, rate changes) plus the interceptor's own goroutines and timer firings is explored over every schedule that departs from the default schedule at most 3 (quick) / 4 (thorough) times; on every schedule the race detector is read, deadlocks, panics and leaked goroutines are detected, and every successfully written packet must reach the transport exactly once with its payload.",
    note=TRUST + "only concurrency the Interceptor interface permits is generated; map iteration in the code under test is made deterministic (sorted keys), so behaviours that need a particular random map order are not explored.", ref="DESIGN.md 3/C10"),
+ 'C11': dict(engine='vsched-e2', technique=E2 + "; plus " + E1,
+   text="(1) For every interceptor of the library, all sequences up to depth 5-6 of BindRTCPWriter, BindRTCPReader, ReadRTCP, toggle RTCP-writer failure, Tick, Close and per stream Bind/Unbind/traffic, each call on its own thread so that a call that never returns is observed: lifecycle calls must return, Close must release every pending traffic call, leave no goroutine of the interceptor alive and be followed by silence at the transport for five intervals; after Unbind nothing about that SSRC may be emitted from the second interval on. (2) For every interceptor, every schedule with at most 3 (4) deviations of a traffic thread racing Close or Unbind+Close under the race detector: no deadlock, panic or leak, nothing written by the interceptor's goroutines after Close returned.",
+   note=TRUST + "a second Close is not issued; traffic is generated on a stream only while it is bound or after Close; transport-wide (TWCC) feedback is not treated as being about a stream.", ref="DESIGN.md 3/C11"),
+ 'C13': dict(engine='vsched-e2', technique="differential " + E2 + "; plus " + E1,
+   text="(1) For every interceptor and option variant (except the responder's documented DisableCopy), all histories up to depth 4 (5) over 10 symbols are executed twice - fresh allocations per call vs. one header/payload/read buffer reused and overwritten right after each call returns, with the application scheduled ahead of the interceptor's goroutines - and everything emitted (packets at the transport, text and binary dumps, statistics) must be identical and the payload unchanged at return. (2) Every schedule with at most 3 (4) deviations of a caller that overwrites its buffers as soon as each call returns, racing the interceptor's goroutines under the race detector: a late read of caller memory is a reported race.",
+   note=TRUST + "RTCP packet objects handed to the RTCP writer are not among the buffers the property lets the caller reuse; RTX sequence numbers (pion/randutil) are normalised.", ref="DESIGN.md 3/C13"),
  'C14': dict(engine='vsched-e3', technique=E3 + "; plus explicit-state search over successive batches through one encoder",
    text="For every (media count, FEC count) in the boundary set x all counterparts (quick) / all 12210 pairs (thorough), three successive batches through one FlexEncoder03 (pooled scratch buffers, coverage reuse), bases 0/1000/65530, header shapes and lengths differing within a batch, all 16^k shape/length assignments for k<=4, plus the interceptor with two FEC streams: every repair packet is parsed by an independent FlexFEC-03 header parser and every packet named in its mask is recovered by XOR and compared byte for byte; masks must name exactly the combined packets, every media packet must be protected, repair packets carry FEC SSRC/PT with consecutive sequence numbers, media first and unmodified.",
    note=TRUST + "payload bytes are a fixed pattern per (batch,index); the repository's decoder is not used.", ref="DESIGN.md 3/C14"),
  'C15': dict(engine='vsched-e1', technique=E1,
    text="Every interleaving (all of them for 3 writers x 2 packets: the evidence reports all_interleavings=true; deviation bound 4 for 4 writers) of concurrent writers on two negotiated and one non-negotiated stream of one HeaderExtensionInterceptor is executed for each (extension id, profile, pre-existing extension) configuration, including writers started just below the 2^16 wrap, with uniqueness/consecutiveness/header-preservation checked at the transport and the race detector read after each schedule.",
    note=TRUST + "rtp.Header.GetExtension/DelExtension are used to read headers at the transport.", ref="DESIGN.md 3/C15"),
+ 'C16': dict(engine='vsched-e2', technique=E2,
+   text="All histories up to depth 5 (6) over 15 symbols (send 1/5 packets; feedback for everything sent since the last feedback under 8 arrival patterns incl. identical and decreasing arrival times, growing queueing delay, 50% and near-total loss, duplicated and reordered reports, generated by the library's own TWCC / RFC 8888 recorders and passed through Marshal/Unmarshal; advance 5 ms/250 ms/1 s; Close) are executed on gcc.SendSideBWE for six (initial,min,max) x pacer x feedback-kind configurations under the virtual clock; in every state the target must be finite, positive, within [min,max], equal to the last value given to the change callback, and the injected pacer must have been told the same sequence; WriteRTCP must return, and fail with ErrSendSideBWEClosed after Close.",
+   note=TRUST + "callback order is the spawn order of the callback goroutines (DESIGN.md section 5).", ref="DESIGN.md 3/C16"),
+ 'C17': dict(engine='vsched-e2', technique=E2 + "; plus " + E1,
+   text="(1) All histories up to depth 4 (5) over 16 symbols (writes of 12..1532 bytes on the wire on two streams, advance 1/10/200 pacing intervals, SetRate 100k/1M/5M, Close) on pacing.Interceptor, gcc.LeakyBucketPacer and gcc.NoOpPacer under the virtual clock with golang.org/x/time/rate instrumented too: after every step deliveries are a per-stream prefix of the accepted packets (exactly once, in order, intact), token-bucket releases stay within burst + integral of the rate, and after a drain phase nothing accepted is missing. (2) Every schedule with at most 3 (4) deviations of two writers on one stream, an optional SetRate and the pacer goroutine with two timer firings under the race detector.",
+   note=TRUST + "packets whose Write returns an error are not accepted; the returned byte count is not judged.", ref="DESIGN.md 3/C17"),
  'C20': dict(engine='vsched-e3', technique="exhaustive enumeration of the finite input space on the real code: " + E3,
    text="Unwrapper: every (previous result p in [0,2^17), next uint16) pair - 8.6e9 Unwrap calls on the real type, reached through the public API by walking one instance and applying every next to a copy - plus regions around 2^31/2^32 (thorough: 2^47, 2^48, 2^51), all boundary-input sequences of length <=3 (4) from every p and all short true-value streams. NTP: every nanosecond of 2^16-ns (thorough 2^20-ns) windows around 52 anchors (epoch, powers of two, float64 rounding boundaries, second and 65536-second window boundaries, end of era 0): monotonicity over adjacent nanoseconds, 64-bit round trip within 1 us, 32-bit round trip within 1/65536 s for references in the same window.",
    note="Pure functions (no scheduler involved); results hold for amd64 float-to-integer conversion; NTP instants outside the enumerated windows are not covered.", ref="DESIGN.md 3/C20"),
